@@ -16,6 +16,8 @@
 package hessian
 
 import (
+	"unicode"
+	"unicode/utf8"
 	"math"
 	"errors"
 	"fmt"
@@ -750,12 +752,35 @@ func findField(name string, typ reflect.Type) (int, error) {
 	if first >= 'a' && first <= 'z' {
 		first -= _asciiGap
 	}
+	if first >= utf8.RuneSelf {
+		return findFieldNonASCII(name, typ)
+	}
 	for i := 0; i < typ.NumField(); i++ {
 		str := typ.Field(i).Name
 		if len(str) != len(name) || str[1:] != name[1:] {
 			continue
 		}
 		if str[0] == name[0] || str[0] == first {
+			return i, nil
+		}
+	}
+	return 0, errNoField
+}
+
+// findFieldNonASCII is findField for a wire name whose first letter is not an ASCII letter: ärger, étage, ωmega
+// are the Go fields Ärger, Étage, Ωmega (the two spellings of a letter may differ in length)
+func findFieldNonASCII(name string, typ reflect.Type) (int, error) {
+	r, size := utf8.DecodeRuneInString(name)
+	if r == utf8.RuneError {
+		return 0, errNoField
+	}
+	for i := 0; i < typ.NumField(); i++ {
+		str := typ.Field(i).Name
+		fr, fsize := utf8.DecodeRuneInString(str)
+		if str[fsize:] != name[size:] {
+			continue
+		}
+		if fr == r || fr == unicode.ToUpper(r) {
 			return i, nil
 		}
 	}
